@@ -158,18 +158,21 @@ SWEEP_MODULES = ['buffer', 'burst', 'convert_to_block', 'dejitter', 'delay', 'di
 SWEEP_MODULES2 = ['crop', 'separate_fields', 'row_join', 'rtp_pcm_pack', 'rtp_pcm_unpack', 'sine_wave_source', 'audio_blank', 'audio_copy',
                   'block_to_sound', 'video_blank', 'row_split', 'void_source', 'blank_source']
 SWEEP_FILTERS = ['filter_blend', 'audio_max', 'audio_bar', 'audio_graph', 'zoneplate', 'zoneplate_source']
+SWEEP_TS = ['ts_align', 'ts_metadata_generator', 'ts_pcr_interpolator', 'ts_pid_filter', 'ts_tstd', 'ts_sync', 'ts_check']
 ENGINES['esweep'] = {
     'src': ['harness/esweep.c'],
+    'inc_first': ['shim'],
     'sim_src': ['sim/alloc.c', 'sim/umem_sim.c', 'sim/upump_sim.c'],
     'repo_src': BUF_SRC + ['lib/upipe/upump_common.c', 'lib/upipe/uprobe_upump_mgr.c', 'lib/upipe/uprobe_uref_mgr.c',
                            'lib/upipe/uprobe_ubuf_mem.c', 'lib/upipe/uprobe_uclock.c', 'lib/upipe/uprobe_prefix.c', 'lib/upipe/ustring.c',
                            'lib/upipe/uuri.c'] +
                 ['lib/upipe-modules/upipe_%s.c' % m for m in SWEEP_MODULES + SWEEP_MODULES2] +
-                ['lib/upipe-filters/upipe_%s.c' % m for m in SWEEP_FILTERS] + ['lib/upipe-filters/zoneplate/videotestsrc.c'],
+                ['lib/upipe-filters/upipe_%s.c' % m for m in SWEEP_FILTERS] + ['lib/upipe-filters/zoneplate/videotestsrc.c'] +
+                ['lib/upipe-ts/upipe_%s.c' % m for m in SWEEP_TS] + ['lib/upipe-modules/upipe_auto_inner.c'],
     'ldflags': ['-lm'],
     'track_alloc': True,
     'real': ['lib/upipe-modules/upipe_%s.c' % m for m in SWEEP_MODULES + SWEEP_MODULES2] +
-            ['lib/upipe-filters/upipe_%s.c' % m for m in SWEEP_FILTERS] +
+            ['lib/upipe-filters/upipe_%s.c' % m for m in SWEEP_FILTERS] + ['lib/upipe-ts/upipe_%s.c' % m for m in SWEEP_TS[:5]] +
             ['include/upipe/upipe_helper_output.h', 'include/upipe/upipe_helper_input.h', 'lib/upipe/uprobe_upump_mgr.c',
              'lib/upipe/uprobe_uref_mgr.c', 'lib/upipe/uprobe_ubuf_mem.c', 'lib/upipe/uprobe_uclock.c', 'lib/upipe/upump_common.c',
              'lib/upipe/uref_std.c', 'lib/upipe/udict_inline.c', 'lib/upipe/ubuf_block_mem.c'],
@@ -293,7 +296,7 @@ PIPE_RULE = ('one case = (pipeline, history, choices): a chain of 1-4 pipes draw
 PIPE_ASSUME = ['one simulated thread; nondeterminism = order of ready pumps, allocator failures, and the instants chosen by the plan',
                'the reference model of upipe_helper_output (drop without flow def / output, negotiate before sending, renegotiate after a change, invalid after a rejection) is the specification the real pipes are compared with',
                'once an injected allocation failure fired in a run, only the model-free oracles stay armed (order and exactly-once at sinks, flow def before data, ready/dead ordering, nothing left allocated)',
-               'reference models exist for the 12 pipe types of the E-pipe catalogue; the sweep engine (esweep) adds 48 more pipe types (29 block pass-through / buffering / packetising types, 19 picture and sound filters, sources and bins fed complete flow definitions and real picture / sound buffers) under model-free oracles: lifecycle (C01, C04), order / same payload / immediate delivery where the pipe type promises them, completeness after a drain (sinks that block the pump they are fed from and let go again, loop run dry, clock far ahead) and release of the blocked source pump for the 16 types documented never to drop (C05), option read-back plus a twin execution of the same history without its getters and without the setters the pipe rejected, whose outputs and events must be identical (C20)']
+               'reference models exist for the 12 pipe types of the E-pipe catalogue; the sweep engine (esweep) adds 53 more pipe types (29 block pass-through / buffering / packetising types, 19 picture and sound filters, sources and bins, 5 transport stream pipes fed complete flow definitions and real picture / sound buffers) under model-free oracles: lifecycle (C01, C04), order / same payload / immediate delivery where the pipe type promises them, completeness after a drain (sinks that block the pump they are fed from and let go again, loop run dry, clock far ahead) and release of the blocked source pump for the 16 types documented never to drop (C05), option read-back plus a twin execution of the same history without its getters and without the setters the pipe rejected, whose outputs and events must be identical (C20)']
 for _p in ('C01', 'C04', 'C05', 'C20'):
     PROPS[_p] = {'engine': 'epipe', 'quick_time': 30, 'thorough_time': 600, 'rule': PIPE_RULE, 'assumptions': list(PIPE_ASSUME)}
 PROPS['C12'] = {'engine': 'epipe', 'engines': ['epipe', 'ethread'], 'quick_time': 30, 'thorough_time': 600,
@@ -443,10 +446,10 @@ PROPS['C14'].update({
 LEVEL_TEXT = {
     'C14': 'Seeded byte streams and fragmentation schedules through the real aggregate, chunk_stream, ts_sync and ts_check pipes: outputs are the accepted input octets in order, unit sizes respect the configuration, TS units match a reference parser and start with the sync octet, stream parsers give the same units however the stream is cut, release terminates and leaves nothing allocated. Evidence, not proof.',
     'C12': 'Seeded request histories over chains of real pipes built on upipe_helper_output: after every operation each registered request is lodged exactly once at the terminal the chain currently leads to and nowhere else, answers reach the original requester once with the value given, nothing calls back after unregister or after the chain is released. In-thread only. Evidence, not proof.',
-    'C01': 'Seeded pipeline histories biased towards lifetime edges (re-plumbing to NULL, release in mid-run, teardown orders, allocation failures): every pipe throws dead exactly once, sinks are never destroyed while referenced by the application, all managers and probes return to one reference, nothing stays allocated; the same over 48 more pipe types (sweep) and 14 sub-pipe families (super-pipe and sub-pipes released in any order). Evidence, not proof.',
-    'C04': 'Seeded pipeline histories: ready first, dead exactly once and last, no event/data/flow definition after dead; every buffer reaches a sink under an accepted flow definition equal to the one in force (reference model and upstream getter), none after a rejection; the lifecycle clauses also over 48 more pipe types and 14 sub-pipe families, where the super-pipe must outlive its sub-pipes. Evidence, not proof.',
+    'C01': 'Seeded pipeline histories biased towards lifetime edges (re-plumbing to NULL, release in mid-run, teardown orders, allocation failures): every pipe throws dead exactly once, sinks are never destroyed while referenced by the application, all managers and probes return to one reference, nothing stays allocated; the same over 53 more pipe types (sweep) and 14 sub-pipe families (super-pipe and sub-pipes released in any order). Evidence, not proof.',
+    'C04': 'Seeded pipeline histories: ready first, dead exactly once and last, no event/data/flow definition after dead; every buffer reaches a sink under an accepted flow definition equal to the one in force (reference model and upstream getter), none after a rejection; the lifecycle clauses also over 53 more pipe types and 14 sub-pipe families, where the super-pipe must outlive its sub-pipes. Evidence, not proof.',
     'C05': 'Seeded pipeline histories against a reference model of every catalogue pipe: per sink the delivered sequence (numbers, payload, attributes, dates) equals the model, in order, exactly once; queues deliver held buffers first and in order, flush may only lose what was not delivered yet; 16 more pipe types documented never to drop deliver everything once their output takes data again, the loop ran and time passed, and leave the source pump unblocked. Evidence, not proof.',
-    'C20': 'Seeded pipeline histories with getter calls at random instants: getters return what the model says was set (a failed setter leaves the previous value), and a differential run without the getter calls must show identical histories; over 48 more pipe types the same history is executed again without its getters and without the setters the pipe rejected and must send the same buffers, flow definitions and events. Evidence, not proof.',
+    'C20': 'Seeded pipeline histories with getter calls at random instants: getters return what the model says was set (a failed setter leaves the previous value), and a differential run without the getter calls must show identical histories; over 53 more pipe types the same history is executed again without its getters and without the setters the pipe rejected and must send the same buffers, flow definitions and events. Evidence, not proof.',
     'C03': 'Seeded histories of block operations against a plain byte-string model, with allocation failures injected inside operations and out-of-range arguments; every handle is re-read (random probe first, then segment by segment) after every operation. Found and fixed seven defects. Evidence, not proof.',
     'C02': 'Block buffers: the C03 engine with write mappings (a granted write may only change the handle it was issued on; exclusive never-sliced memory must be writable). Picture and sound buffers: seeded histories of alloc / dup / resize / map-for-write / copy / replace / free against a model of areas, owners and windows: a write mapping is granted iff the area has one owner, every handle always reads what the model holds. Evidence, not proof.',
     'C10': 'Seeded histories of dictionary operations against a typed-map model, with storage-growth failures injected inside set/import/dup. Evidence, not proof.',
